@@ -308,8 +308,50 @@ func VerifC08BuilderReuse() {
 	root := ed25519Key(vWide("root", 32))
 	f1 := Fact{Predicate{Name: gNameFree("first.name"), IDs: []Term{String("x1"), Integer(vInt64("first.c"))}}}
 	f2 := Fact{Predicate{Name: gNameFree("second.name"), IDs: []Term{String("x2"), Integer(vInt64("second.c"))}}}
-	variant := vChoose("reuse", 3)
-	vLabel([...]string{"build twice", "build, add, build", "sibling blocks appended in sequence"}[variant])
+	variant := vChoose("reuse", 4)
+	vLabel([...]string{"build twice", "build, add, build", "sibling blocks appended in sequence", "block built for a sibling of equal table length"}[variant])
+	if variant == 3 {
+		// two siblings of one parent whose symbol tables have the same length but not the same content; a
+		// block made by a builder of the first is appended to the second
+		pb0 := NewBuilder(root, WithRNG(rng))
+		pb0.AddAuthorityFact(Fact{Predicate{Name: "owner", IDs: []Term{String("file1")}}})
+		parent, err := pb0.Build()
+		vAssert(err == nil, "C08.reuse.build")
+		if err != nil {
+			return
+		}
+		mk := func(who string) *Biscuit {
+			bb := parent.CreateBlock()
+			bb.AddFact(Fact{Predicate{Name: "owner", IDs: []Term{String(who)}}})
+			t, e := parent.Append(rng, bb.Build())
+			vAssert(e == nil, "C08.reuse.append")
+			if e != nil {
+				vAssume(false)
+			}
+			return t
+		}
+		sibA, sibB := mk("alice"), mk("bob")
+		sA, sB := c08Take(sibA, "sibling-a"), c08Take(sibB, "sibling-b")
+		// the block refers to a string of sibling A's table and brings a new one (or not)
+		bb := sibA.CreateBlock()
+		want := []Fact{{Predicate{Name: "member", IDs: []Term{String("alice")}}}}
+		if vChoose("new-symbol", 2) == 1 {
+			want = []Fact{{Predicate{Name: "owner", IDs: []Term{String("alice")}}}}
+			vLabel("block without symbols of its own")
+		}
+		vAssert(bb.AddFact(want[0]) == nil, "C08.reuse.add")
+		t, e := sibB.Append(rng, bb.Build())
+		vCover("reused")
+		vAssert(sA.same(), "C08.reuse.unchanged-sibling-a")
+		vAssert(sB.same(), "C08.reuse.unchanged-sibling-b")
+		if e != nil {
+			vCover("refused")
+			return
+		}
+		vAssert(c08BlockHas(t, 2, want), "C08.reuse.foreign-block-content")
+		vAssert(c08BlockHas(c16Reload(t), 2, want), "C08.reuse.foreign-block-content-on-wire")
+		return
+	}
 	if vChoose("builder", 2) == 0 && variant < 2 {
 		vLabel("token builder")
 		b := NewBuilder(root, WithRNG(rng))
